@@ -486,7 +486,7 @@ class WeatherCheck:
         if h >= 360.0:
             h = 0.0
         if q['via'] == 'azimuth':
-            az_param, az_point = h, (h + 90.0) % 360.0  # the explicit azimuth must win over the point's
+            az_param, az_point = h, (h + 77.0) % 360.0  # the explicit azimuth must win over the point's (not 90: that coincides with the exchanged-components finding)
         else:
             az_param, az_point = None, h
         st_, got = self.call(t, r['lat'], r['lon'], az_point, r['alt'], tas, az_param)
